@@ -33,6 +33,11 @@ cfg_select! {
     loom => {
         use loom::{cell::UnsafeCell, hint, sync::atomic::*, thread::yield_now};
     }
+    feature = "verif" => {
+        mod verif;
+        use std::sync::atomic::Ordering;
+        use verif::{AtomicPtr, AtomicUsize, UnsafeCell, hint, yield_now};
+    }
     _ => {
         use std::{hint, sync::atomic::*, thread::yield_now};
 
@@ -142,6 +147,8 @@ impl Shared {
         }
 
         let mut drained: usize = 0;
+        #[cfg(feature = "verif")]
+        verif::point(10);
         while let Some(id) = self.sync.pop() {
             queue.make_hot(id);
             drained += 1;
